@@ -31,7 +31,11 @@ the fresh store dumps the interrupted key and another key again, reads them back
 an exception and without waiting for a lock (once per distinct set of names left behind); the same oracle runs as a concurrent reader at
 every primitive of the live write (fresh reader now + a reader that opened the files then and reads
 after the write finished, via hard links).  Redis: command trace of redis_store.dump on the
-command-atomic fake server."""
+command-atomic fake server.
+Bystander section: at the instant a dump's temporary file is complete and about to be renamed into place, a second process
+(a fresh store object) performs one complete operation on other keys; the dump must finish normally and a fresh process must
+see both effects and nothing else (`bystander_section`; search on the real code, kind impl-violation).
+"""
 import base64
 import contextlib
 import errno
